@@ -34,7 +34,7 @@ ASSUMPTIONS = [
 OUTSIDE = [
     "requests arriving when every recording with a response has been served (the addon treats replay as finished and forwards them whatever "
     "server_replay_extra says) — treated as 'replay no longer active'",
-    "multipart/form-data bodies, HTTPS scheme, Host-header/host disagreement, loading from files (io.read_flows_from_paths), "
+    "multipart/form-data bodies other than the three repeated-field shapes, HTTPS scheme, Host-header/host disagreement, loading from files (io.read_flows_from_paths), "
     "the deprecated server_replay_kill_extra flag (server_replay_nopop is exercised in the thorough tier)",
     "histories / recorded sets larger than the bound",
 ]
@@ -50,6 +50,12 @@ ENCODED = [
 ]
 
 FORM = "application/x-www-form-urlencoded"
+MULTIPART = "multipart/form-data; boundary=BOUNDARY"
+
+
+def _mp(*fields):
+    """multipart/form-data body for (name, value) pairs (RFC 7578)"""
+    return b"".join(b'--BOUNDARY\r\nContent-Disposition: form-data; name="%s"\r\n\r\n%s\r\n' % (k.encode(), v.encode()) for k, v in fields) + b"--BOUNDARY--\r\n"
 
 
 def S(name, method="GET", host="a.example", port=80, path="/p", query=(("x", "1"), ("y", "2")), body=b"", ctype=None, xkey=None):
@@ -71,7 +77,13 @@ SHAPES = {s["name"]: s for s in [
     S("post-empty", method="POST"),
     S("repeat-12", query=(("x", "1"), ("y", "2"), ("y", "3"))),             # repeated parameter: later values belong to the key
     S("repeat-13", query=(("x", "1"), ("y", "2"), ("y", "4"))),
+    # multipart forms with a repeated field: every value of a non-ignored field belongs to the key
+    S("mp-rg5", method="POST", body=_mp(("tag", "red"), ("tag", "green"), ("pign", "5")), ctype=MULTIPART),
+    S("mp-rb5", method="POST", body=_mp(("tag", "red"), ("tag", "blue"), ("pign", "5")), ctype=MULTIPART),
+    S("mp-rg6", method="POST", body=_mp(("tag", "red"), ("tag", "green"), ("pign", "6")), ctype=MULTIPART),   # == mp-rg5 iff 'pign' is ignored
 ]}
+MP_FIELDS = {"mp-rg5": (("tag", "red"), ("tag", "green"), ("pign", "5")), "mp-rb5": (("tag", "red"), ("tag", "blue"), ("pign", "5")),
+             "mp-rg6": (("tag", "red"), ("tag", "green"), ("pign", "6"))}
 
 TOGGLES = {
     "server_replay_ignore_params": ([], ["ign"]),
@@ -94,6 +106,8 @@ def refkey(s, o):
         form = None
         if s["ctype"] == FORM and s["body"]:
             form = tuple(tuple(kv.split("=", 1)) for kv in s["body"].decode().split("&"))
+        elif s["ctype"] == MULTIPART:
+            form = MP_FIELDS[s["name"]]
         if o["server_replay_ignore_payload_params"] and form:
             key.append(("form", tuple(p for p in form if p[0] not in o["server_replay_ignore_payload_params"])))
         else:
@@ -287,6 +301,8 @@ OPS_REUSE = ["req:base", "req:ign-param", "toggle:server_replay_ignore_params", 
 REC_FORM = [("form5", True), ("form6", True), ("raw5", True), ("form5", False)]
 OPS_FORM = ["req:form5", "req:form6", "req:raw5", "toggle:server_replay_ignore_payload_params", "toggle:server_replay_ignore_content",
             "reuse:server_replay_reuse", "extra:kill"]
+REC_MP = [("mp-rg5", True), ("mp-rb5", True), ("mp-rg6", True)]
+OPS_MP = ["req:mp-rg5", "req:mp-rb5", "req:mp-rg6", "toggle:server_replay_ignore_payload_params", "extra:kill"]
 REC_ADDR = [("base", True), ("host-b", True), ("port-8080", True), ("query-order", True)]
 OPS_ADDR = ["req:base", "req:host-b", "req:port-8080", "req:query-order", "toggle:server_replay_ignore_host", "toggle:server_replay_ignore_port",
             "reuse:server_replay_nopop", "extra:204"]
@@ -308,6 +324,9 @@ def obligations(tier):
         Symx("history-reuse-reindex", lambda X: h_history(X, REC_QUICK[:3], 2, OPS_REUSE, 4 if quick else 5),
              bounds=f"recorded set of 1..2 flows x every history of <= {4 if quick else 5} steps over {OPS_REUSE} (serve with reuse, change a matching option, serve again)",
              encoded=ENCODED, must_reach=["end", "served", "option-change", "served-with-reuse"], parallel_depth=3),
+        Symx("history-multipart", lambda X: h_history(X, REC_MP, 2, OPS_MP, 3),
+             bounds=f"recorded set of 1..2 flows from {REC_MP} (multipart forms with a repeated field) x every history of <= 3 steps over {OPS_MP}",
+             encoded=ENCODED, must_reach=["end", "served", "unmatched", "option-change"], parallel_depth=3),
     ]
     if not quick:
         obs += [
